@@ -413,6 +413,7 @@ def basis_problems(tree, hk, basis, want_n=None, exact=None):
                 problems.append("u x v = -n: the image is mirrored")
         if want_n is not None and not problems:
             wn = [R(x) for x in want_n]
+            syms = set(syms) | {y for x in wn for p_ in (x.n, x.d) for y in p_.symbols() if isinstance(y, str)}
             if not all(is_zero(x) for x in cross(n, wn)):
                 problems.append("n = %s is not parallel to the requested direction %s" % (n, wn))
             elif not positive_everywhere(dot(n, wn), syms):
@@ -448,6 +449,7 @@ def basis_problems(tree, hk, basis, want_n=None, exact=None):
             problems.append("u x v = -n: the image is mirrored")
     if want_n is not None and not problems:
         wn = [R(x) for x in want_n]
+        syms = set(syms) | {y for x in wn for p_ in (x.n, x.d) for y in p_.symbols() if isinstance(y, str)}
         cr = cross(n, wn)
         if not all(is_zero(x) for x in cr):
             problems.append("n = %s is not parallel to the requested direction %s" % (n, wn))
